@@ -1,6 +1,7 @@
 // C09: reductions (reduce_add / reduce_max / reduce_min / generic reduce(f, x) / haddp).
 // Scalar results are replicated to every lane position of the batch they were computed from.
 #include "xv_harness.hpp"
+#include "xv_twin.hpp"
 
 namespace xv
 {
@@ -113,6 +114,11 @@ namespace xv
         reg_r<r_min>("reduce_min", at);
         reg_haddp<float>();
         reg_haddp<double>();
+        // twin element types (xv_twin.hpp); reduce_max/reduce_min of long long / unsigned long long are not accepted by the
+        // library (their generic kernel needs a swizzle with a batch_constant<unsigned long long> mask, and the kernels name uint64_t)
+        reg_r<r_add>("reduce_add.twin", twin_types {});
+        reg_r<r_max>("reduce_max.twin", types<char> {});
+        reg_r<r_min>("reduce_min.twin", types<char> {});
 #endif
         reg_generic(all_types {});
     }
